@@ -8,6 +8,7 @@ CONSTANTS
   Lens = {0,1,2,3,5,6,8,11}
   Cmds = {1, 2}
   MaxMsgs = 2
+  Cuts = {0}
   MaxPkts = 6
   Export = FALSE
 SPECIFICATION Spec
